@@ -12,6 +12,7 @@ naming via get_helicity_angle_symbols / get_invariant_mass_symbol.   DESIGN.md s
 
 from __future__ import annotations
 
+import ctypes
 import itertools
 
 import numpy as np
@@ -250,7 +251,12 @@ def cfg_angles(config, tier, seed):
     ctx = Ctx(config["name"])
     ids = sorted(topology.outgoing_edge_ids)
     P = setup_event(ctx, ids)
-    vals, fns, args = library_values(ctx, topology, P, cse, which=("angles",))
+    try:
+        vals, fns, args = library_values(ctx, topology, P, cse, which=("angles",))
+    except (Unsupported, RecursionError, z3.Z3Exception, ctypes.ArgumentError) as exc:
+        # the reference frames of this topology are within the bound, so the library's code needed more nested
+        # frames than the reference: no encoding, no verdict -- but look for a concrete witness on the real code
+        return witness_search(config, topology, cse, seed, f"{type(exc).__name__}: {str(exc)[:120]}")
     ref = Ref(ctx, topology, P).angles
     out, obs = [], []
     for name in sorted(set(vals) | set(ref)):
@@ -275,6 +281,35 @@ def cfg_angles(config, tier, seed):
 
     res = discharge(ctx, merge_lemma_obligations(ctx) + obs + side_obligations(ctx), config=config["name"], replay=replay, timeout_s=config.get("timeout", 40), hunt_rounds=8)
     return out + res
+
+
+def witness_search(config, topology, cse, seed, why):
+    """After a failed encoding: evaluate the real generated code and the float reference at a few concrete events.
+    A reproduced difference is a VIOLATION; no difference leaves the configuration INCONCLUSIVE (never 'holds')."""
+    import random
+
+    from ampform.kinematics.angles import compute_helicity_angles
+    from ampform.kinematics.lorentz import create_four_momentum_symbols
+
+    momenta = create_four_momentum_symbols(topology)
+    args = [momenta[i] for i in sorted(momenta)]
+    ids = sorted(topology.outgoing_edge_ids)
+    rng = random.Random(seed)
+    exprs = compute_helicity_angles(momenta, topology)
+    for sym, expr in sorted(exprs.items(), key=lambda kv: str(kv[0])):
+        fn, _ = generated_source(args, expr.doit(), cse=cse)
+        for _k in range(6):
+            asg = {}
+            for i in ids:
+                p = [rng.randint(-9, 9) / 7 for _ in range(3)]
+                asg.update({f"p{i}[0].x": p[0], f"p{i}[0].y": p[1], f"p{i}[0].z": p[2], f"p{i}[0].E": (sum(c * c for c in p) + rng.randint(1, 9) / 5) ** 0.5})
+            ev = numeric_event(asg, ids)
+            got, want = real_value(fn, args, ev), numeric_reference(topology, ev).get(str(sym))
+            if want is None or np.isnan(got.real) or abs(np.exp(1j * got.real) - np.exp(1j * want)) > 1e-7:
+                return [Result(name=f"{sym}: library value == reference (concrete witness after failed encoding)", kind="identity", status="sat", config=config["name"],
+                               assignment={k: repr(v) for k, v in asg.items()}, detail=why,
+                               replay={"reproduced": True, "library": str(got), "reference": None if want is None else float(want), "event": {k: float(v) for k, v in asg.items()}})]  # fmt: skip
+    return [Result(name="translate", kind="identity", status="unknown", config=config["name"], detail=f"encoding failed ({why}); no concrete witness found")]
 
 
 def numeric_reference(topology, ev):
